@@ -209,7 +209,7 @@ pub fn run(tape: &[u8], cx: &Cx) -> Outcome {
     let subject = a1.clone();
     let repl = a3.clone();
     let prog2 = prog.clone();
-    let res = std::thread::spawn(move || {
+    let res = crate::runner::spawn_user_thread(move || {
         catch(move || {
             let terms = prog2.build_wrapped();
             let e = *terms.last().unwrap();
